@@ -338,6 +338,10 @@ def value_predicates(op, names, facts, lres, rres, ldiff, Lroot):
     if t == "walk" and lok and tree_equal:
         if rres[0] == "runaway" and len(lv) > 1:
             return "C24/walk-never-descends"
+        if rok and not op["follow_symlinks"] and facts["self"] == "ld" and rv == [[lv[0][0], [], []]] and (lv[0][1] or lv[0][2]):
+            # `find <link> -mindepth 1` without -L does not enter a start point that is a symlink to a directory;
+            # the local walk (scandir of the top) does
+            return "C24/walk-top-symlink-not-entered"
         if rok and rv == [] and lv and op["follow_symlinks"]:
             # `find -L` exits 1 when a link cannot be followed for a reason other than ENOENT (a path component of
             # its target is a regular file: ENOTDIR); walk swallows the error and yields nothing at all
@@ -572,7 +576,8 @@ DIRECTED = [
        + [{"op": "size", "path": "<1>"}, {"op": "chmod", "path": "<1>", "mode": 0o640}, {"op": "chmod", "path": "<0>", "mode": 0o711},
           {"op": "chmod", "path": "<2>", "mode": 0o600}, {"op": "read_text", "path": "<2>", "n": None}, {"op": "read_text", "path": "<1>", "n": 5}]),
     _d(_B, _BASIC_SETUP,
-       [{"op": "walk", "path": "<0>", "top_down": True, "follow_symlinks": True}, {"op": "glob", "path": "", "pattern": "*"},
+       [{"op": "walk", "path": "l2", "top_down": True, "follow_symlinks": False},
+        {"op": "walk", "path": "<0>", "top_down": True, "follow_symlinks": True}, {"op": "glob", "path": "", "pattern": "*"},
         {"op": "write_text", "path": "<0>/new", "data": "  lead and trail \n\n"}, {"op": "write_text", "path": "<1>", "data": ""},
         {"op": "symlink_to", "path": "<0>/s1", "target": "<1>"}, {"op": "hardlink_to", "path": "<0>/h1", "target": "<1>"},
         {"op": "mkdir", "path": "<0>/m1", "mode": 0o750, "parents": False, "exist_ok": False}, {"op": "size", "path": "<0>/g"},
